@@ -8,8 +8,8 @@ import (
 	"sort"
 
 	"pgregory.net/rapid"
-	"verif/internal/jsongen"
-	"verif/internal/refmatch"
+	"verif/lib/jsongen"
+	"verif/lib/refmatch"
 )
 
 // Opts configure pattern generation.
